@@ -183,3 +183,45 @@ fn c02_verify_range_of_2() {
 fn c02_verify_range_of_3() {
     range::<3>();
 }
+
+// ---- node/src/store/utils.rs: the batch check every Store::insert goes through -----------------------
+mod celestia_types {
+    pub use super::Error;
+}
+include!("generated/store_utils_c02.rs");
+
+fn batch<const N: usize>() {
+    let now = set_clock();
+    let hs: [ExtendedHeader; N] = std::array::from_fn(|_| any_header());
+    let mut v = std::vec::Vec::with_capacity(N);
+    let mut i = 0;
+    while i < N {
+        v.push(hs[i]);
+        i += 1;
+    }
+    let mut want = true;
+    let mut i = 1;
+    while i < N {
+        want = want && links(&hs[i - 1], &hs[i], now) && hs[i - 1].height + 1 == hs[i].height;
+        i += 1;
+    }
+    let res = VerifiedExtendedHeaders::try_from(v);
+    assert!(res.is_ok() == want, "C02/C21 VerifiedExtendedHeaders::try_from: a batch is accepted exactly when every header is the adjacent verified successor of the previous one");
+    kani::cover!(want, "witness: linked batch accepted");
+    kani::cover!(!want, "witness: broken batch rejected");
+    std::mem::forget(res);
+}
+
+// @verif prop=C02,C21 tier=quick shape="batch of 3 free headers through VerifiedExtendedHeaders::try_from" funcs="<VerifiedExtendedHeaders as TryFrom<Vec<ExtendedHeader>>>::try_from,ExtendedHeader::verify_adjacent_range,ExtendedHeader::verify_range,ExtendedHeader::verify"
+#[kani::proof]
+#[kani::unwind(6)]
+fn c02_verified_batch_of_3() {
+    batch::<3>();
+}
+
+// @verif prop=C02,C21 tier=quick shape="batch of 4 free headers through VerifiedExtendedHeaders::try_from" funcs="<VerifiedExtendedHeaders as TryFrom<Vec<ExtendedHeader>>>::try_from,ExtendedHeader::verify_adjacent_range,ExtendedHeader::verify_range,ExtendedHeader::verify"
+#[kani::proof]
+#[kani::unwind(6)]
+fn c02_verified_batch_of_4() {
+    batch::<4>();
+}
